@@ -8,7 +8,7 @@ On success the change is kept as /verif/seeded/<name>/ (patch.diff, demo.py, not
 import json, os, re, shutil, subprocess, sys
 prop, src, name, needs = sys.argv[1:5]
 skip_suite = "--skip-suite" in sys.argv
-W = "/tmp/wt/v"
+W = os.environ.get("SEED_WT", "/tmp/wt/v")
 KNOWN_FAIL = {"tests/dialects/test_universe.py::test_multiverse", "tests/xdsl_tblgen/test_tblgen.py::test_run_tblgen_to_py"}
 def sh(cmd, cwd=None, **kw):
     return subprocess.run(cmd, cwd=cwd, shell=isinstance(cmd, str), capture_output=True, text=True, **kw)
